@@ -112,6 +112,12 @@ def ensure_facts(config="default"):
             raise AnalysisError("tmplfacts failed: " + r.stderr[-2000:])
         with open(os.path.join(d, "tmpl.jsonl"), "w") as fh:
             fh.write(r.stdout)
+        ufiles = [x for x in _source_files() if x.startswith("lalrpop-util/src/") and x.endswith(".rs")]
+        r = subprocess.run([TMPLFACTS] + ufiles, cwd=REPO, capture_output=True, text=True)
+        if r.returncode != 0:
+            raise AnalysisError("tmplfacts (lalrpop-util) failed: " + r.stderr[-2000:])
+        with open(os.path.join(d, "tmpl_util.jsonl"), "w") as fh:
+            fh.write(r.stdout)
         # E1 (MIR)
         sysroot = subprocess.run(["rustc", "+nightly", "--print", "sysroot"],
                                  capture_output=True, text=True, check=True).stdout.strip()
@@ -445,7 +451,7 @@ class Facts:
         self.crates = {}
         self.nbodies = {}
         for fn in sorted(os.listdir(d)):
-            if not fn.endswith(".jsonl") or fn == "tmpl.jsonl":
+            if not fn.endswith(".jsonl") or fn.startswith("tmpl"):
                 continue
             with open(os.path.join(d, fn)) as fh:
                 unit = fn[:-6]
@@ -475,6 +481,7 @@ class Facts:
                 raise AnalysisError("facts for %s incomplete" % need)
         self._callers = None
         self.tmpl = Tmpl(os.path.join(d, "tmpl.jsonl"))
+        self.tmpl_util = Tmpl(os.path.join(d, "tmpl_util.jsonl"))
 
     def body(self, path):
         return self.bodies.get(path)
@@ -591,6 +598,8 @@ class Tmpl:
         self.lets = []
         self.other = []
         self.unparsed = []
+        self.unsafe = []
+        self.statics = []
         self.files = 0
         with open(path) as fh:
             for line in fh:
@@ -608,6 +617,10 @@ class Tmpl:
                     self.other.append(r)
                 elif k == "macro_unparsed":
                     self.unparsed.append(r)
+                elif k == "unsafe":
+                    self.unsafe.append(r)
+                elif k == "static":
+                    self.statics.append(r)
                 elif k == "end":
                     self.files = r["files"]
         if not self.files:
